@@ -253,8 +253,33 @@ class _ExprInline(ast.NodeTransformer):
             return new
         return n
 
+    def visit_Dict(self, n):
+        self.generic_visit(n)
+        # {"a": x, **{"b": y}}  (what an expanded helper leaves behind)  ->  {"a": x, "b": y}
+        if any(k is None and isinstance(v, ast.Dict) and all(kk is not None for kk in v.keys) for k, v in zip(n.keys, n.values)):
+            ks, vs = [], []
+            for k, v in zip(n.keys, n.values):
+                if k is None and isinstance(v, ast.Dict) and all(kk is not None for kk in v.keys):
+                    ks += v.keys
+                    vs += v.values
+                else:
+                    ks.append(k)
+                    vs.append(v)
+            n.keys, n.values = ks, vs
+        return n
+
     def visit_Call(self, n):
         self.generic_visit(n)
+        # f(a=x, **{"b": y})  ->  f(a=x, b=y)
+        if any(k.arg is None and isinstance(k.value, ast.Dict) and all(isinstance(kk, ast.Constant) and isinstance(kk.value, str) and kk.value.isidentifier() for kk in k.value.keys) for k in n.keywords):
+            kws = []
+            for k in n.keywords:
+                if k.arg is None and isinstance(k.value, ast.Dict) and all(isinstance(kk, ast.Constant) and isinstance(kk.value, str) and kk.value.isidentifier() for kk in k.value.keys):
+                    kws += [ast.keyword(arg=kk.value, value=vv) for kk, vv in zip(k.value.keys, k.value.values)]
+                else:
+                    kws.append(k)
+            n.keywords = kws
+            ast.fix_missing_locations(n)
         f = n.func
         fi = None
         # ClassName.factory(args) with an unknown classmethod `return cls(...)` of any class of the packages
@@ -279,9 +304,14 @@ class _ExprInline(ast.NodeTransformer):
             fi = self.caller.nested.get(f.id) or (self.caller.outer.nested.get(f.id) if self.caller.outer is not None else None) or self.mi.funcs.get(f.id)
         elif isinstance(f, ast.Attribute) and isinstance(f.value, ast.Name) and self.caller.cls is not None and f.value.id in ("self", "cls", self.caller.cls.name):
             fi = self.caller.cls.methods.get(f.attr)
-        if fi is None or fi.qname not in self.cands or fi is self.caller:
+            if fi is None and getattr(self, "prog", None) is not None:
+                # an expression helper inherited from a base class (possibly in another module)
+                inh = self.prog.method(self.caller.cls, f.attr)
+                if inh is not None and inh.qname in getattr(self, "inherited", {}):
+                    fi = inh
+        if fi is None or (fi.qname not in self.cands and fi.qname not in getattr(self, "inherited", {})) or fi is self.caller:
             return n
-        expr = self.cands[fi.qname]
+        expr = self.cands.get(fi.qname) or self.inherited[fi.qname]
         params = [a.arg for a in fi.node.args.args]
         if fi.cls is not None and not fi.is_static and params and params[0] in ("self", "cls"):
             params = params[1:]
@@ -306,6 +336,24 @@ class _ExprInline(ast.NodeTransformer):
         return new
 
 
+def _drop_identity(stmts):
+    """`x = x` (a helper parameter that took the name of the variable it is copied back into) does nothing"""
+    out = []
+    for st in stmts:
+        for field in ("body", "orelse", "finalbody"):
+            blk = getattr(st, field, None)
+            if isinstance(blk, list) and blk and isinstance(blk[0], ast.stmt):
+                new = _drop_identity(blk)
+                setattr(st, field, new if new or field != "body" else [ast.copy_location(ast.Pass(), st)])
+        if isinstance(st, ast.Try):
+            for h in st.handlers:
+                h.body = _drop_identity(h.body) or [ast.copy_location(ast.Pass(), h)]
+        if isinstance(st, ast.Assign) and len(st.targets) == 1 and isinstance(st.targets[0], ast.Name) and isinstance(st.value, ast.Name) and st.value.id == st.targets[0].id:
+            continue
+        out.append(st)
+    return out
+
+
 def inline_new_helpers(prog):
     """rewrite function bodies in place; returns the list of (caller, helper) expansions performed"""
     known = known_functions()
@@ -317,6 +365,13 @@ def inline_new_helpers(prog):
             body = [s_ for s_ in fi.node.body if not (isinstance(s_, ast.Expr) and isinstance(s_.value, ast.Constant))]
             if len(body) == 1 and isinstance(body[0], ast.Return) and isinstance(body[0].value, ast.Call) and isinstance(body[0].value.func, ast.Name) and body[0].value.func.id == "cls":
                 factories[(fi.cls.name, fi.name)] = (body[0].value, fi.params[1:])
+    # unknown expression helpers that are methods: also usable through inheritance, from other modules
+    inherited = {}
+    for fi in prog.funcs.values():
+        if fi.cls is not None and fi.qname not in known:
+            e = _expression_helper(fi)
+            if e is not None and not any(isinstance(x, ast.Name) and x.id in fi.mod.funcs for x in ast.walk(e)):
+                inherited[fi.qname] = e
     # (0) pure expression helpers are substituted wherever they are called (helpers that use helpers: a few rounds)
     for mi in list(prog.modules.values()):
         for _round in range(3):
@@ -335,12 +390,13 @@ def inline_new_helpers(prog):
                         setters = [m for m in fi.cls.methods if m == fi.name + ".setter"]
                         if not setters:
                             props[(fi.cls.name, fi.name)] = body[0].value
-            if not ecands and not props and not (factories and _round == 0):
+            if not ecands and not props and not ((factories or inherited) and _round == 0):
                 break
             before = len(done)
             for caller in [f for f in prog.funcs.values() if f.mod is mi]:
                 tr = _ExprInline(mi, caller, {q: e for q, e in ecands.items() if q != caller.qname}, done, props)
                 tr.factories = factories
+                tr.prog, tr.inherited = prog, {q: e for q, e in inherited.items() if q != caller.qname}
                 caller.node.body = [tr.visit(st) for st in caller.node.body]
                 ast.fix_missing_locations(caller.node)
             if len(done) == before:
@@ -495,6 +551,22 @@ def inline_new_helpers(prog):
                 if isinstance(st, ast.Try):
                     for h in st.handlers:
                         h.body = rewrite(h.body, caller, depth)
+                # return list(gen(a)) / x = list(gen(a))  with gen an unknown generator  ->  an append loop over gen(a), fused below
+                lv = st.value if isinstance(st, (ast.Assign, ast.Return)) else None
+                if isinstance(lv, ast.Call) and isinstance(lv.func, ast.Name) and lv.func.id == "list" and len(lv.args) == 1 and not lv.keywords and isinstance(lv.args[0], ast.Call) and depth < 3 and (isinstance(st, ast.Return) or (len(st.targets) == 1 and isinstance(st.targets[0], ast.Name))) and gen_target(lv.args[0], caller) is not None:
+                    acc = st.targets[0].id if isinstance(st, ast.Assign) else "result" + SUFFIX
+                    if not any(isinstance(n, ast.Name) and n.id == acc for n in ast.walk(lv.args[0])):
+                        item = "item" + SUFFIX
+                        new = [
+                            ast.Assign(targets=[ast.Name(id=acc, ctx=ast.Store())], value=ast.List(elts=[], ctx=ast.Load()), lineno=st.lineno, col_offset=0),
+                            ast.For(target=ast.Name(id=item, ctx=ast.Store()), iter=lv.args[0], body=[ast.Expr(value=ast.Call(func=ast.Attribute(value=ast.Name(id=acc, ctx=ast.Load()), attr="append", ctx=ast.Load()), args=[ast.Name(id=item, ctx=ast.Load())], keywords=[]), lineno=st.lineno, col_offset=0)], orelse=[], lineno=st.lineno, col_offset=0),
+                        ]
+                        if isinstance(st, ast.Return):
+                            new.append(ast.Return(value=ast.Name(id=acc, ctx=ast.Load()), lineno=st.lineno, col_offset=0))
+                        for x in new:
+                            ast.fix_missing_locations(x)
+                        out += rewrite(new, caller, depth + 1)
+                        continue
                 # for x in gen(a): BODY  with gen an unknown generator that yields in tail position of its single loop
                 if isinstance(st, ast.For) and isinstance(st.iter, ast.Call) and not st.orelse and depth < 3:
                     gfi = gen_target(st.iter, caller)
@@ -621,7 +693,7 @@ def inline_new_helpers(prog):
             return out
 
         for caller in [f for f in prog.funcs.values() if f.mod is mi]:
-            caller.node.body = rewrite(caller.node.body, caller)
+            caller.node.body = _drop_identity(rewrite(caller.node.body, caller))
             # closures whose every use was expanded are dropped
             for nm, nf in list(caller.nested.items()):
                 if nf.qname in cands and any(h == nf.qname for _, h in done):
